@@ -88,7 +88,7 @@ pub fn run(ctx: &Ctx) -> usize {
 		violations += 1;
 	}
 	let cfg = cfg_for(ctx);
-	let cases = ctx.n(6000, 300_000);
+	let cases = ctx.n(60_000, 3_000_000);
 	if run_dna(ctx, "dna", cases, dna_max(ctx), |dna, counting| check_model(ctx, &model_from_dna(dna, &cfg), counting)).is_some() {
 		violations += 1;
 	}
